@@ -32,8 +32,8 @@ package fs
 //@ spec func min64(a int64, b int64) int64 = ite(a < b, a, b)
 //@ spec func max64(a int64, b int64) int64 = ite(a < b, b, a)
 
-// Invariant of the abstract state for an open handle.
-//@ spec func fileOK(f File) bool = f != nil && hOpen[f] && fidOf[f] != 0 && 0 <= fDur[fidOf[f]] && fDur[fidOf[f]] <= fLen[fidOf[f]] && fLen[fidOf[f]] <= 0x1000000000000
+// Invariant of the abstract state for an open handle (an open handle is an allocated object).
+//@ spec func fileOK(f File) bool = f != nil && allocated(f) && hOpen[f] && fidOf[f] != 0 && 0 <= fDur[fidOf[f]] && fDur[fidOf[f]] <= fLen[fidOf[f]] && fLen[fidOf[f]] <= 0x1000000000000
 
 //@ func (f File) WriteAt(p []byte, off int64) (n int, err error)
 //@   requires off: off >= 0 && off <= 0x1000000000000
@@ -111,6 +111,9 @@ package fs
 //@   requires fs: fsys != nil
 //@   ensures absent: old(dirFid[fsys][name]) == 0 && flag & 0x40 == 0 ==> err != nil
 //@   ensures handle: err == nil ==> f != nil && fresh(f) && hOpen[f] && hPos[f] == 0 && fidOf[f] == dirFid[fsys][name] && fidOf[f] != 0 && fileOK(f) && fidName[fidOf[f]] == name
+//@   ensures newhandle: err == nil ==> !old(hOpen[f])
+//@   ensures failed: err != nil ==> forall h ref :: hOpen[h] == old(hOpen[h]) && hPos[h] == old(hPos[h]) && fidOf[h] == old(fidOf[h])
+//@   ensures onlyfresh: forall h ref :: hOpen[h] && !old(hOpen[h]) ==> h == ref(f)
 //@   ensures same: err == nil && old(dirFid[fsys][name]) != 0 ==> dirFid[fsys][name] == old(dirFid[fsys][name])
 //@   ensures created: err == nil && old(dirFid[fsys][name]) == 0 ==> fLen[fidOf[f]] == 0 && fDur[fidOf[f]] == 0 && (forall h ref :: old(hOpen[h]) ==> old(fidOf[h]) != fidOf[f]) && (forall n string :: n != name ==> old(dirFid[fsys][n]) != fidOf[f])
 //@   ensures kept: err == nil && old(dirFid[fsys][name]) != 0 && flag & 0x200 == 0 ==> fLen[fidOf[f]] == old(fLen[dirFid[fsys][name]]) && fDur[fidOf[f]] == old(fDur[dirFid[fsys][name]]) && fData[fidOf[f]] == old(fData[dirFid[fsys][name]])
